@@ -499,6 +499,20 @@ def foreign_bodies(h):
         o2 = outcome(lambda: h.parse(b1 + TRAIL))
         if o2[0] != 'ok' or o2[1][1] != TRAIL or bytes(o2[1][0].__bytearray__()) != b1:
             ctx.fail('foreign-bodies', 'normalised foreign packet is not a fixed point of parse/serialise', dict(case, out=b1.hex()[:600]))
+    # one-pass signature packets with every flag octet: zero = another follows, non-zero = the last one (RFC 4880 5.4); the meaning survives
+    for flag in (range(256) if not ctx.quick else [0, 1, 2, 3, 0x7f, 0x80, 0xfe, 0xff]):
+        body = bytes([3, rng.choice([0, 1]), rng.choice([2, 8, 10]), rng.choice([1, 17, 19, 22])]) + bytes(rng.randrange(256) for _ in range(8)) + bytes([flag])
+        raw = S.new_header(4, len(body)) + body
+        ctx.case('foreign-bodies', ('ops-flag', flag, raw), sample={'what': 'one-pass signature flag octet', 'flag': flag})
+        def flow():
+            p, rest = h.parse(raw + TRAIL)
+            out = bytes(p.__bytearray__())
+            p2, rest2 = h.parse(out + TRAIL)
+            return rest == TRAIL, out[:-1] == raw[:-1], (out[-1] != 0) == (flag != 0), rest2 == TRAIL and bytes(p2.__bytearray__()) == out
+        o = outcome(flow)
+        if o != ('ok', (True, True, True, True)):
+            ctx.fail('foreign-bodies', 'one-pass signature packet: the flag octet changes its meaning (or the packet is not a fixed point) when re-serialised '
+                     '(consumed exactly, other octets kept, last-ness kept, fixed point) = %r' % (o,), {'op': 'foreign-body', 'what': 'ops flag', 'pkt': raw.hex()})
     # a getter must not change what is exported: user attributes without an image subpacket
     for sub in (bytes([5, 100, 1, 2, 3, 4]), bytes([2, 101]), bytes([3, 1, 9, 9]) + bytes([2, 100])):
         raw = S.new_header(17, len(sub)) + sub
